@@ -2,7 +2,7 @@
    the checker functions that recompute the implementation's answers with the
    models.  An implementation answer [None] is a caught panic; it never equals
    a model answer unless the model says [None] (panic) too. *)
-From CKB Require Export Tx.Verify Tx.Resolve.
+From CKB Require Export Tx.Verify Tx.Resolve Tx.Recheck.
 Local Open Scope N_scope.
 
 Definition opt_eqb {A} (eqb : A -> A -> bool) (a b : option A) : bool :=
@@ -126,3 +126,41 @@ Definition check_block (c : block_case) : bool :=
   opt_eqb (res_eqb (list_eqb rtx_eqb))
     (Some (resolve_block (assoc_provider (bc_cells c)) (hdr_checker (bc_headers c)) (bc_block c)))
     (bc_result c).
+
+(* re-validation: a transaction resolved in context A (seen_inputs, cells),
+   then ResolvedTransaction::check and a fresh resolve_transaction in context B,
+   with SYSTEM_CELL unset ([None]) or holding the given entries.  Context A's
+   provider is restricted to the out points involved (anything else is
+   unknown); context B's is A's with the listed out points changed (consumed:
+   dead or unknown); every header is valid.  seen_inputs are sets: compared as
+   such. *)
+Definition patch_provider (d : list (outpoint * status)) (p : provider) : provider :=
+  fun o => match find (fun kv => op_eqb (fst kv) o) d with
+           | Some kv => snd kv
+           | None => p o
+           end.
+Definition set_eqb (a b : list outpoint) : bool :=
+  forallb (fun o => op_mem o b) a && forallb (fun o => op_mem o a) b.
+Record recheck_case := mkRecheckCase {
+  kc_sys : option syscache;
+  kc_tx : tx;
+  kc_seenA : list outpoint;
+  kc_cellsA : list (outpoint * status);
+  kc_seenB : list outpoint;
+  kc_changedB : list (outpoint * status);           (* what differs in B *)
+  kc_rtxA : rtx;                                    (* what resolve_transaction returned in A *)
+  kc_check : option (res (list outpoint));          (* check in B: the new seen_inputs, or the error *)
+  kc_fresh : option (res (rtx * list outpoint))     (* resolve_transaction in B: result and new seen_inputs *)
+}.
+Definition check_recheck_case (c : recheck_case) : bool :=
+  let pA := assoc_provider (kc_cellsA c) in
+  let pB := patch_provider (kc_changedB c) pA in
+  let hc := fun _ : N => true in
+  match resolve_transaction_with (kc_sys c) (kc_seenA c) pA hc (kc_tx c) with
+  | Ok (r, _) =>
+      rtx_eqb r (kc_rtxA c) &&
+      opt_eqb (res_eqb set_eqb) (Some (recheck (kc_sys c) (kc_seenB c) pB hc (kc_tx c) r)) (kc_check c) &&
+      opt_eqb (res_eqb (fun x y => rtx_eqb (fst x) (fst y) && set_eqb (snd x) (snd y)))
+        (Some (resolve_transaction_with (kc_sys c) (kc_seenB c) pB hc (kc_tx c))) (kc_fresh c)
+  | Err _ => false
+  end.
